@@ -44,7 +44,7 @@ func runC31(p *Prog, r *Result) {
 	checkNestedRunnerTimeout(p, r, "R31g")
 	r.Rule("R31h", "Fd() is not called on a value that can be the runner's stdin unless it is known to be a character device, and the stdin is not handed to os/exec: either makes later reads uninterruptible", 2)
 	checkStdinFd(p, r, "R31h")
-	r.Rule("R31i", "in Run every path from the execution of the node to `return nil` consults ctx.Err(): a cancelled run cannot report success", 3)
+	r.Rule("R31i", "in Run every path from the execution of the node (and of the exit trap) to `return nil` consults ctx.Err(): a cancelled run cannot report success", 4)
 	checkRunReportsCancel(p, r, "R31i")
 
 	runnerT := lookupType(pkg, "Runner")
@@ -1240,6 +1240,8 @@ func isParamOfEnclosing(info *types.Info, fb struct {
 var c31Controls = []Control{
 	{Name: "zero-kill-timeout-never-kills", Rule: "R31c", WantKey: "WaitDelay is positive", File: "interp/handler.go",
 		Mutate: ctlReplaceAnywhere("if killTimeout > 0 && runtime.GOOS != \"windows\" {", "if killTimeout >= 0 && runtime.GOOS != \"windows\" {")},
+	{Name: "exit-trap-runs-after-the-cancellation-check", Rule: "R31i", WantKey: "Run#after trapCallback", File: "interp/api.go",
+		Mutate: ctlReplaceAnywhere("\t// A bare Command bypasses stmt, which normally updates lastExit.\n\tr.lastExit = r.exit\n", "\t// A bare Command bypasses stmt, which normally updates lastExit.\n\tr.lastExit = r.exit\n\tif r.exit.exiting {\n\t\tr.trapCallback(ctx, r.callbackExit, \"exit\")\n\t}\n")},
 	{Name: "run-returns-nil-when-cancelled", Rule: "R31i", WantKey: "Run#after stmts", File: "interp/api.go",
 		Mutate: ctlReplaceAnywhere("if err := ctx.Err(); err != nil && r.exit.ok() {\n\t\tr.exit.fatal(err)\n\t}", "")},
 	{Name: "test-t-calls-fd-on-stdin", Rule: "R31h", WantKey: "f.Fd()", File: "interp/test.go",
